@@ -281,3 +281,102 @@ package query
 //@ lemma law_float_int_agree_mod: forallv(a, int64, forallv(b, int64, small(a) && small(b) && b != 0 && (a % b != 0 || a >= 0) ==>
 //@     same(floatArith(float64(a), float64(b), '%'), float64(intArith(a, b, '%')))))
 //@   property C06
+
+// ---------------------------------------------------------------------------------------------
+// C07: ordering of sort keys. Numbers compare numerically (integers exactly, otherwise as floats, NaN last),
+// datetimes by instant, text by its normalised form; equal keys are a tie (UNKNOWN), so the next key decides.
+//@ spec def svLess(a *SortValue, b *SortValue) ternary.Value =
+//@   ite(a.Type == IntegerType && b.Type == IntegerType, ite(a.Integer == b.Integer, ternary.UNKNOWN, value.tbool(a.Integer < b.Integer)),
+//@   ite((a.Type == IntegerType || a.Type == FloatType) && (b.Type == IntegerType || b.Type == FloatType),
+//@       ite(isNaN(a.Float) && isNaN(b.Float), ternary.UNKNOWN, ite(isNaN(a.Float), ternary.FALSE, ite(isNaN(b.Float), ternary.TRUE,
+//@       ite(a.Float == b.Float, ternary.UNKNOWN, value.tbool(a.Float < b.Float))))),
+//@   ite(a.Type == DatetimeType && b.Type == DatetimeType, ite(a.Datetime == b.Datetime, ternary.UNKNOWN, value.tbool(a.Datetime < b.Datetime)),
+//@   ite(a.Type == StringType && b.Type == StringType, ite(a.String == b.String, ternary.UNKNOWN, value.tbool(a.String < b.String)),
+//@   ite((a.Type == IntegerType || a.Type == FloatType) && b.Type == StringType, value.tbool(a.String < b.String),
+//@   ite(a.Type == StringType && (b.Type == IntegerType || b.Type == FloatType), ite(a.String == b.String, ternary.UNKNOWN, value.tbool(a.String < b.String)),
+//@   ternary.UNKNOWN))))))
+
+//@ func (*SortValue).Less
+//@   property C07
+//@   safety
+//@   requires v != nil && compareValue != nil && v.SerializedKey == nil
+//@   requires !isNaN(v.Float) || v.Type == FloatType
+//@   requires !isNaN(compareValue.Float) || compareValue.Type == FloatType
+//@   ensures [definition] result == svLess(v, compareValue)
+//@   modifies nothing
+
+// one comparison of two key tuples: the first key that decides, its direction and its NULL position
+//@ spec def keyDecides(a *SortValue, b *SortValue) bool = svLess(a, b) != ternary.UNKNOWN || (a.Type == NullType) != (b.Type == NullType)
+//@ spec def keyLess(a *SortValue, b *SortValue, dir int, np int) bool =
+//@   ite(svLess(a, b) != ternary.UNKNOWN, ite(dir == parser.ASC, svLess(a, b) == ternary.TRUE, svLess(a, b) == ternary.FALSE),
+//@   ite(a.Type == NullType && b.Type != NullType, np == parser.FIRST, np != parser.FIRST))
+//@ spec def svsWf(a SortValues) bool = forall(q, 0, len(a), a[q] != nil && a[q].SerializedKey == nil && (!isNaN(a[q].Float) || a[q].Type == FloatType))
+
+//@ func (SortValues).Less
+//@   property C07
+//@   safety
+//@   requires svsWf(values) && svsWf(compareValues)
+//@   requires len(compareValues) >= len(values) && len(directions) >= len(values) && len(nullPositions) >= len(values)
+//@   ensures [first-deciding-key] forall(k, 0, len(values), keyDecides(values[k], compareValues[k]) && forall(q, 0, k, !keyDecides(values[q], compareValues[q])) ==>
+//@       result == keyLess(values[k], compareValues[k], directions[k], nullPositions[k]))
+//@   ensures [all-ties] forall(q, 0, len(values), !keyDecides(values[q], compareValues[q])) ==> !result
+//@   loop 1 invariant 0 <= $i && $i <= len(values) && forall(q, 0, $i, !keyDecides(values[q], compareValues[q]))
+//@   loop 1 modifies nothing
+//@   modifies nothing
+
+//@ func (*View).Less
+//@   property C07
+//@   safety
+//@   requires view != nil && 0 <= i && i < len(view.sortValuesInEachRecord) && 0 <= j && j < len(view.sortValuesInEachRecord)
+//@   requires svsWf(view.sortValuesInEachRecord[i]) && svsWf(view.sortValuesInEachRecord[j])
+//@   requires len(view.sortValuesInEachRecord[j]) >= len(view.sortValuesInEachRecord[i]) && len(view.sortDirections) >= len(view.sortValuesInEachRecord[i]) && len(view.sortNullPositions) >= len(view.sortValuesInEachRecord[i])
+//@   ensures [rows-compared-by-their-own-keys] forall(k, 0, len(view.sortValuesInEachRecord[i]),
+//@       keyDecides(view.sortValuesInEachRecord[i][k], view.sortValuesInEachRecord[j][k]) && forall(q, 0, k, !keyDecides(view.sortValuesInEachRecord[i][q], view.sortValuesInEachRecord[j][q])) ==>
+//@       result == keyLess(view.sortValuesInEachRecord[i][k], view.sortValuesInEachRecord[j][k], view.sortDirections[k], view.sortNullPositions[k]))
+//@   modifies nothing
+
+//@ func (*View).Swap
+//@   property C07
+//@   safety
+//@   requires view != nil && 0 <= i && i < len(view.RecordSet) && 0 <= j && j < len(view.RecordSet)
+//@   requires len(view.sortValuesInEachRecord) == len(view.RecordSet) && (view.sortValuesInEachCell != nil ==> len(view.sortValuesInEachCell) == len(view.RecordSet))
+//@   ensures [rows-swapped] view.RecordSet[i] == old(view.RecordSet[j]) && view.RecordSet[j] == old(view.RecordSet[i])
+//@   ensures [keys-follow-rows] view.sortValuesInEachRecord[i] == old(view.sortValuesInEachRecord[j]) && view.sortValuesInEachRecord[j] == old(view.sortValuesInEachRecord[i])
+//@   ensures [cell-keys-follow-rows] view.sortValuesInEachCell != nil ==> view.sortValuesInEachCell[i] == old(view.sortValuesInEachCell[j]) && view.sortValuesInEachCell[j] == old(view.sortValuesInEachCell[i])
+//@   ensures [others-untouched] forall(k, 0, len(view.RecordSet), k != i && k != j ==> view.RecordSet[k] == old(view.RecordSet[k]) && view.sortValuesInEachRecord[k] == old(view.sortValuesInEachRecord[k]))
+//@   modifies view.RecordSet[*], view.sortValuesInEachRecord[*], view.sortValuesInEachCell[*]
+
+// strict weak order of the key comparison, per class of mutually comparable values (the domain of the property)
+//@ spec def svClassOk(a *SortValue) bool = a != nil && a.SerializedKey == nil && (!isNaN(a.Float) || a.Type == FloatType)
+//@ spec def sameClass(a *SortValue, b *SortValue) bool =
+//@     ((a.Type == IntegerType || a.Type == FloatType) && (b.Type == IntegerType || b.Type == FloatType)) ||
+//@     (a.Type == DatetimeType && b.Type == DatetimeType) || (a.Type == StringType && b.Type == StringType)
+//@ lemma sv_less_asymmetric: forallv(a, *SortValue, forallv(b, *SortValue, svClassOk(a) && svClassOk(b) && sameClass(a, b) ==>
+//@     (svLess(a, b) == ternary.TRUE <==> svLess(b, a) == ternary.FALSE) && (svLess(a, b) == ternary.UNKNOWN <==> svLess(b, a) == ternary.UNKNOWN) &&
+//@     svLess(a, a) == ternary.UNKNOWN))
+//@   property C07
+//@ lemma sv_less_transitive_integers: forallv(a, *SortValue, forallv(b, *SortValue, forallv(c, *SortValue,
+//@     a.Type == IntegerType && b.Type == IntegerType && c.Type == IntegerType && svClassOk(a) && svClassOk(b) && svClassOk(c) ==>
+//@     (svLess(a, b) == ternary.TRUE && svLess(b, c) == ternary.TRUE ==> svLess(a, c) == ternary.TRUE) &&
+//@     (svLess(a, b) == ternary.UNKNOWN && svLess(b, c) == ternary.UNKNOWN ==> svLess(a, c) == ternary.UNKNOWN))))
+//@   property C07
+//@ lemma sv_less_transitive_floats: forallv(a, *SortValue, forallv(b, *SortValue, forallv(c, *SortValue,
+//@     a.Type == FloatType && b.Type == FloatType && c.Type == FloatType && svClassOk(a) && svClassOk(b) && svClassOk(c) ==>
+//@     (svLess(a, b) == ternary.TRUE && svLess(b, c) == ternary.TRUE ==> svLess(a, c) == ternary.TRUE) &&
+//@     (svLess(a, b) == ternary.UNKNOWN && svLess(b, c) == ternary.UNKNOWN ==> svLess(a, c) == ternary.UNKNOWN))))
+//@   property C07
+//@ lemma sv_less_transitive_datetimes: forallv(a, *SortValue, forallv(b, *SortValue, forallv(c, *SortValue,
+//@     a.Type == DatetimeType && b.Type == DatetimeType && c.Type == DatetimeType && svClassOk(a) && svClassOk(b) && svClassOk(c) ==>
+//@     (svLess(a, b) == ternary.TRUE && svLess(b, c) == ternary.TRUE ==> svLess(a, c) == ternary.TRUE) &&
+//@     (svLess(a, b) == ternary.UNKNOWN && svLess(b, c) == ternary.UNKNOWN ==> svLess(a, c) == ternary.UNKNOWN))))
+//@   property C07
+//@ axiom string_order_transitive: forallv(x, string, forallv(y, string, forallv(z, string, x < y && y < z ==> x < z)))
+//@ lemma sv_less_transitive_strings: forallv(a, *SortValue, forallv(b, *SortValue, forallv(c, *SortValue,
+//@     a.Type == StringType && b.Type == StringType && c.Type == StringType && svClassOk(a) && svClassOk(b) && svClassOk(c) ==>
+//@     (svLess(a, b) == ternary.TRUE && svLess(b, c) == ternary.TRUE ==> svLess(a, c) == ternary.TRUE) &&
+//@     (svLess(a, b) == ternary.UNKNOWN && svLess(b, c) == ternary.UNKNOWN ==> svLess(a, c) == ternary.UNKNOWN))))
+//@   property C07
+// equivalence (used by WITH TIES, DISTINCT on sort keys) coincides with being a tie, within a class
+//@ lemma sv_equiv_is_tie: forallv(a, *SortValue, forallv(b, *SortValue, svClassOk(a) && svClassOk(b) && sameClass(a, b) &&
+//@     (a.Type == b.Type) ==> (svEq(a, b) <==> svLess(a, b) == ternary.UNKNOWN)))
+//@   property C07
